@@ -86,6 +86,41 @@ Theorem C05_stop_reads_entry_result : forall sched w entry r xs ks,
 Proof. exact stop_reads_entry_result. Qed.
 Print Assumptions C05_stop_reads_entry_result.
 
+(* ---------------------------------------------------------------- suspend / resume *)
+(* between suspend() returning and resume() being called every worker is blocked in
+   scheduler_base::suspend and no worker step touches a task ([bad] is set by any pop / body /
+   spawn / yield / terminate step taken while [suspended]) *)
+Theorem C05_suspended_runs_nothing : forall sched w entry r xs ks,
+  let c := lc_run sched w entry r xs ks in
+  bad (fst c) = false /\
+  (suspended (fst c) = true ->
+   forall t, 1 <= t <= nworkers (fst c) -> wst (fst c) t = WsSleeping /\ lpc (snd c t) = PAsleep).
+Proof. exact suspended_runs_nothing. Qed.
+Print Assumptions C05_suspended_runs_nothing.
+
+(* after resume() has returned every worker is running again ... *)
+Theorem C05_resume_runs_all : forall sched w entry r xs ks,
+  let c := lc_run sched w entry r xs ks in
+  lpc (snd c 0) = PIdle -> suspended (fst c) = false ->
+  forall t, 1 <= t <= nworkers (fst c) -> wst (fst c) t = WsRunning.
+Proof. exact resume_runs_all. Qed.
+Print Assumptions C05_resume_runs_all.
+
+(* ... and a running idle worker facing queued work takes a task on its next step *)
+Theorem C05_running_worker_takes_work : forall o t g l,
+  wst g t = WsRunning -> lpc l = PIdle -> queue g <> [] ->
+  exists id, In id (queue g) /\ lpc (snd (worker_step o t g l)) = PRun id (tprog g id).
+Proof. exact running_worker_takes_work. Qed.
+Print Assumptions C05_running_worker_takes_work.
+
+Example C05_suspend_example :
+  let xs := fun t => match t with 3 => [XSubmit [AWork]] | _ => [] end in
+  let g1 := fst (lc_run (rr_sched 400 5 1) 2 [AWork; ASpawn [AWork]] 5%Z xs [KSuspend]) in
+  let g2 := fst (lc_run (rr_sched 800 5 1) 2 [AWork; ASpawn [AWork]] 5%Z xs [KSuspend; KResume]) in
+  (suspended g1 = true /\ wst g1 1 = WsSleeping /\ wst g1 2 = WsSleeping /\ bad g1 = false) /\
+  (suspended g2 = false /\ wst g2 1 = WsRunning /\ wst g2 2 = WsRunning /\ hd EvSuspended (log g2) = EvResumed).
+Proof. vm_compute. repeat split. Qed.
+
 (* the order of the model's C1/C2 and D1/D2 steps is the order of the statements in every scheduler
    (Gen/GenLifecycle.v is regenerated from the source on every run) *)
 Theorem C05_code_order : gen_inc_first = true /\ gen_dec_last = true.
